@@ -207,10 +207,19 @@ def build(ck):
         if ia is None or ib is None:
             return
         N = prod(ns)
-        # mixed-radix lemma, proved here for this many digits: digits in range => value in range, equal values => equal digits
+        _, fa = closed_formula(ka, ns)
+        _, fb = closed_formula(kb, ns)
+        # (1) the code's outputs are the closed formula at the two pixels
+        S.oblige('post', z3.And(ia == fa, ib == fb), tag=f'outputs-are-the-closed-formula-{dims}d')
+        # (2) mixed-radix lemma on the closed formula, proved by the back end for this many digits
         if dims == 3:
-            # product instances (nonlinear facts are stated on the products the code forms, proved separately below)
-            S.assume(mul_facts(S, ka, kb, ns))
+            S.assume(mul_facts(S, ka, kb, ns))      # product facts, each proved as a `lemma` obligation first
+        in_range = z3.And(0 <= fa, fa < N)
+        inj = z3.Implies(fa == fb, z3.And(*[a == b for a, b in zip(ka, kb)]))
+        S.oblige('lemma', in_range, tag=f'mixed-radix-value-in-range-{dims}-digits')
+        S.oblige('lemma', inj, tag=f'mixed-radix-digits-are-unique-{dims}-digits')
+        # (3) hence, for the code's outputs
+        S.assume(z3.And(ia == fa, ib == fb, in_range, inj))
         S.oblige('post', z3.And(0 <= ia, ia < N), tag=f'in-map-indices-lie-in-0..N-1-{dims}d')
         S.oblige('post', z3.Implies(ia == ib, z3.And(*[a == b for a, b in zip(ka, kb)])),
                  tag=f'distinct-in-map-pixels-get-distinct-indices-{dims}d')
@@ -329,6 +338,8 @@ def mul_facts(S, ka, kb, ns):
     for k in (ka, kb):
         facts += [k[1] * n0 >= 0, k[1] * n0 <= (n1 - 1) * n0, k[2] * m >= 0, k[2] * m <= (n2 - 1) * m]
     facts += [m >= 1, (n1 - 1) * n0 == m - n0, (n2 - 1) * m == n2 * m - m]
+    for k in (ka, kb):
+        facts += [k[0] + k[1] * n0 <= m - 1, k[0] + k[1] * n0 + k[2] * m <= n2 * m - 1]
     d2 = ka[2] - kb[2]
     d1 = ka[1] - kb[1]
     facts += [z3.Implies(d2 >= 1, ka[2] * m - kb[2] * m >= m), z3.Implies(d2 <= -1, ka[2] * m - kb[2] * m <= -m),
